@@ -261,6 +261,17 @@ def ghz(n, kind, rng):
 
 
 def check_shots(ctx, text, label, nshots, finding_key=None):
+    try:
+        _check_shots(ctx, text, label, nshots, finding_key)
+    finally:
+        # every compiled graph is its own XLA executable: drop them, or a long run exhausts the process's memory maps
+        import gc
+        import jax
+        jax.clear_caches()
+        gc.collect()
+
+
+def _check_shots(ctx, text, label, nshots, finding_key=None):
     import stim
     import tsim
     c = tsim.Circuit(text)
